@@ -80,10 +80,6 @@ func raiseScale(l time.Duration) {
 
 // NoteLatency feeds an observed overshoot (e.g. of a poll sleep) into the scale, like a probe result.
 func NoteLatency(l time.Duration) {
-	if l > 20*time.Millisecond && os.Getenv("T9_DEBUG") != "" {
-		buf := make([]byte, 2048)
-		Logf("t9: latency %v noted at\n%s", l, buf[:runtime.Stack(buf, false)])
-	}
 	schedMu.Lock()
 	defer schedMu.Unlock()
 	if l > schedWorst {
